@@ -8,7 +8,10 @@
 //	index       a[i]            (a not resolvable to a map)
 //	slice       a[l:h]
 //	deref       p.F / p.M() / *p  where p is a pointer field of a decoded message,
-//	            the result of a Get<PtrField>() getter, or a pointer-to-message parameter
+//	            the result of a Get<PtrField>() getter, a pointer-to-message parameter,
+//	            a local read by value from a map with pointer values (nil when the key is absent),
+//	            or any identifier the function itself compares with nil (so un-nesting or deleting
+//	            that comparison makes the sites vanish or lose their guard)
 //	ifacenil    use of an interface-typed message field (PriShare.V, PubShare.V)
 //	typeassert  x.(T)           guard "ok" for the comma-ok form
 //	div         a / b, a % b    (b not a literal)
@@ -213,6 +216,9 @@ type walker struct {
 	ptrParam  map[string]bool
 	seenParam map[string]bool
 	alias     map[string]string // local := selector expression
+	ptrMap    map[string]bool   // locals that are maps with pointer values
+	nilLocal  map[string]string // local := m[k] of such a map (nil when the key is absent) → text of m[k]
+	nilCmp    map[string]bool   // identifiers the function compares with nil: the code itself treats them as nil-able
 	anchored  map[int]bool
 	conds     *[][2]string
 	sites     *[]site
@@ -461,6 +467,11 @@ func (w *walker) stmt(s ast.Stmt, gs []guard) []guard {
 				w.expr(ie.X, gs)
 				w.expr(ie.Index, gs)
 				w.add("mapzero", ie, gs, nil)
+				if mid, ok := ie.X.(*ast.Ident); ok && w.ptrMap[mid.Name] {
+					if lid, ok := x.Lhs[0].(*ast.Ident); ok {
+						w.nilLocal[lid.Name] = w.t(ie) // a nil pointer when the key is absent
+					}
+				}
 				continue
 			}
 			w.expr(r, gs)
@@ -533,13 +544,19 @@ func (w *walker) noteLocal(a *ast.AssignStmt, r ast.Expr) {
 		w.alias[id.Name] = w.t(v)
 	case *ast.CallExpr:
 		if f, ok := v.Fun.(*ast.Ident); ok && f.Name == "make" && len(v.Args) > 0 {
-			if _, ok := v.Args[0].(*ast.MapType); ok {
+			if mt, ok := v.Args[0].(*ast.MapType); ok {
 				w.mapLocal[id.Name] = true
+				if _, ok := mt.Value.(*ast.StarExpr); ok {
+					w.ptrMap[id.Name] = true
+				}
 			}
 		}
 	case *ast.CompositeLit:
-		if _, ok := v.Type.(*ast.MapType); ok {
+		if mt, ok := v.Type.(*ast.MapType); ok {
 			w.mapLocal[id.Name] = true
+			if _, ok := mt.Value.(*ast.StarExpr); ok {
+				w.ptrMap[id.Name] = true
+			}
 		}
 	}
 }
@@ -586,6 +603,9 @@ func (w *walker) expr(e ast.Expr, gs []guard) {
 	case *ast.ParenExpr:
 		w.expr(x.X, gs)
 	case *ast.SelectorExpr:
+		if id, ok := x.X.(*ast.Ident); ok && (w.nilLocal[id.Name] != "" || (w.nilCmp[id.Name] && !w.ptrParam[id.Name])) {
+			w.add("deref", x, gs, w.guardNil(id.Name))
+		}
 		if ps, ok := w.optPtr(x.X); ok {
 			if id, isParam := x.X.(*ast.Ident); !isParam || !w.seenParam[id.Name] {
 				if isParam {
@@ -791,6 +811,26 @@ func (w *walker) call(c *ast.CallExpr, gs []guard) {
 	}
 }
 
+// nilCompared: the identifiers (other than err) that fd compares with nil
+func nilCompared(fd *ast.FuncDecl) map[string]bool {
+	m := map[string]bool{}
+	ast.Inspect(fd.Body, func(n ast.Node) bool {
+		if b, ok := n.(*ast.BinaryExpr); ok && (b.Op == token.EQL || b.Op == token.NEQ) {
+			x, y := b.X, b.Y
+			if id, ok := x.(*ast.Ident); ok && id.Name == "nil" {
+				x, y = y, x
+			}
+			if id, ok := y.(*ast.Ident); ok && id.Name == "nil" {
+				if v, ok := x.(*ast.Ident); ok && v.Name != "err" {
+					m[v.Name] = true
+				}
+			}
+		}
+		return true
+	})
+	return m
+}
+
 func recvName(fd *ast.FuncDecl) string {
 	if fd.Recv == nil || len(fd.Recv.List) == 0 {
 		return ""
@@ -905,7 +945,7 @@ func run(repo string) (string, error) {
 			delete(want, q)
 			listed[pkg+"."+q] = true
 			w := &walker{fset: fset, pkg: pkg, fn: pkg + "." + q, ptrField: ptrField, ifcField: ifcField, mapField: mapField,
-				mapLocal: map[string]bool{}, ptrParam: map[string]bool{}, seenParam: map[string]bool{}, alias: map[string]string{}, sites: &sites, calls: calls, anchored: anchored, conds: &conds}
+				mapLocal: map[string]bool{}, ptrParam: map[string]bool{}, seenParam: map[string]bool{}, alias: map[string]string{}, ptrMap: map[string]bool{}, nilLocal: map[string]string{}, nilCmp: nilCompared(fd), sites: &sites, calls: calls, anchored: anchored, conds: &conds}
 			for _, p := range fd.Type.Params.List {
 				switch pt := p.Type.(type) {
 				case *ast.MapType:
